@@ -99,3 +99,28 @@ claim("C19",
       "Decides only the structural part of the conversions: every layout a textual-form constructor writes is in the parser's layout table and both sides use UTC; the scaled product is rounded, not truncated, before conversion; scale and exponent come from the same decimal count and GetValue multiplies number by ten to the scale; duration writer and reader use the same library and relative end times are rounded to the second. The exactness of the round trips themselves (binary floating point, library arithmetic) is NOT decided by static analysis; the claim is deliberately narrow.",
       "Trusted: time.Format/ParseInLocation, the period library, math.Round.",
       "DESIGN.md §4 C19")
+
+# Rules added after the first claim (most of them after a seeded change had been missed, DESIGN.md §10.1);
+# appended to the level text by gen_manifest.py.
+ADDENDA = {
+    "C01": "",
+    "C02": " Also decided: the comparator the merged list is sorted with is a lexicographic ascending '<' over the key values (truth table over the three relations, by CFG simulation of the sort closure).",
+    "C03": " Also decided: the gate objects are found in ProcessCmd or in single-call-site helpers of it; a binding is revoked exactly for its own client (retain truth tables of RemoveBinding and RemoveBindingsForEntity).",
+    "C04": " Also decided: failure monotonicity of the generic engine (under every assignment of stage outcomes a path on which a failed stage ran returns false), and the success && persist guard of all per-type UpdateList siblings.",
+    "C05": " Also covered: getters whose field is nil by construction (derived from constructors called with nil, e.g. the address of a remote device before discovery) and custom JSON decoders as additional roots of the inbound tree.",
+    "C06": " Also decided: the element removed is the same list element (loop variable) as the one tested; RemoveAllFeatures dominates every AddFeature on an existing remote entity; the retain truth tables of the per-entity clean-ups.",
+    "C07": " Also decided: retain truth table of RemoveEntity (a rebuild loop left with break is a violation); every read-modify-write of the entity and feature lists lies in one critical section.",
+    "C08": " Also decided: the fan-out loop has no early exit; every read-modify-write of the subscription list lies in one critical section.",
+    "C09": " Also decided: every read-modify-write of the binding list lies in one critical section.",
+    "C10": " Also decided: registries and client-side caches are rebuilt atomically (read and store in one critical section); the entity-removal cascade applies each clean-up to the removed entity's own address.",
+    "C11": " Also decided: one level of shallow cloning is tracked (the inner lists of the elements of a cloned list are still shared); failure monotonicity of the engine.",
+    "C12": " Also decided: key granularity of deletions on the per-peer maps (a function that addresses single writes never deletes a peer's whole entry).",
+    "C13": "",
+    "C14": "",
+    "C15": " Also decided: the loop over the levels strictly encloses the loop over the handlers; every read-modify-write of the handler list lies in one critical section.",
+    "C16": "",
+    "C17": " Also decided: the ownership rule C11-O3 as a race rule (no in-place write into data reachable from snapshots that are read without locks).",
+    "C18": " Also decided: no pointer-to-interface reaches the reflective setters; a field rewritten by both MarshalJSON and UnmarshalJSON is rewritten under the same presence conditions.",
+    "C19": " Also decided: encoder/decoder guard agreement of the time period, and the FormatFloat parameters the decimal count is derived from.",
+    "C20": " Also decided: the lock of the copy-modify-store cycle is as wide as the data (not per entity); hand-written slice comparisons test lengths for equality.",
+}
